@@ -88,13 +88,28 @@ func (tr *FnTrans) envAt(b *ssa.BasicBlock, idx int, heap, old *Heap) *Env {
 }
 
 // evalGoal evaluates a formula that has to be proved (universal quantifiers are skolemised).
-func (e *Env) evalGoal(x *Expr) string {
+func (e *Env) evalGoal(x *Expr) (goal string) {
 	e2 := *e
 	e2.pol = 1
 	if e.tr != nil {
 		was := e.tr.deferEx
 		e.tr.deferEx = true
-		defer func() { e.tr.deferEx = was }()
+		nsk, ndef := len(e.tr.skolems), len(e.tr.deferredEx)
+		defer func() {
+			e.tr.deferEx = was
+			// a clause of the function's own contract that cannot be evaluated against the code as it
+			// is now (a variable it names is gone, is no longer addressable, has another type ...):
+			// the obligation is reported as failed rather than the whole function as an engine error
+			if r := recover(); r != nil {
+				if u, ok := r.(unsupportedErr); ok && strings.HasPrefix(u.msg, "contract expression") {
+					e.tr.skolems, e.tr.deferredEx = e.tr.skolems[:nsk], e.tr.deferredEx[:ndef]
+					e.tr.inapplicable = u.msg
+					goal = "false"
+					return
+				}
+				panic(r)
+			}
+		}()
 	}
 	return e2.evalBool(x)
 }
